@@ -1,0 +1,296 @@
+//go:build verif
+// +build verif
+
+package linker
+
+// Observation hook for the /verif correspondence harness (build tag "verif" only): reports, at the point where
+// the tree-shaking hook runs (after scanImportsAndExports and treeShakingAndCodeSplitting), everything the linker
+// used to compute the dependency edges between parts: per part the symbol uses, call uses, declared symbols,
+// import record indices and the Dependencies it ended up with; per file the TopLevelSymbolToParts table, the named
+// imports with LocalPartsWithUses, ImportsToBind, the resolved exports in SortedAndFilteredExportAliases order,
+// the import records, wrapper / entry-point part indices and flags; the options the edge computation reads.
+// Kernel "partdeps" feeds this to the Lean model (Impl/PartDeps.lean), which recomputes the edges.
+
+import (
+	"sort"
+
+	"github.com/evanw/esbuild/internal/ast"
+	"github.com/evanw/esbuild/internal/compat"
+	"github.com/evanw/esbuild/internal/config"
+	"github.com/evanw/esbuild/internal/graph"
+	"github.com/evanw/esbuild/internal/runtime"
+)
+
+type VerifPDRef struct {
+	Source int
+	Inner  int
+}
+
+type VerifPDCallUse struct {
+	Ref    VerifPDRef
+	Calls  int
+	Single int
+}
+
+type VerifPDDecl struct {
+	Ref        VerifPDRef
+	IsTopLevel bool
+}
+
+type VerifPDPart struct {
+	Uses                 []VerifPDRef // keys of SymbolUses, sorted
+	CallUses             []VerifPDCallUse
+	Declared             []VerifPDDecl
+	Records              []int    // ImportRecordIndices
+	Deps                 [][2]int // (source index, part index), in order, with duplicates
+	CanBeRemovedIfUnused bool
+	ForceTreeShaking     bool
+	IsLive               bool
+}
+
+type VerifPDRecord struct {
+	Kind     int // ast.ImportKind
+	Target   int // source index, -1 = not valid
+	Star     bool
+	Default  bool
+	ESModule bool
+	ExtDyn   bool // isExternalDynamicImport
+}
+
+type VerifPDBind struct {
+	Key       VerifPDRef
+	Source    int
+	Ref       VerifPDRef
+	ReExports [][2]int
+}
+
+type VerifPDNamedImport struct {
+	Ref        VerifPDRef
+	LocalParts []int
+}
+
+type VerifPDTLS struct {
+	Ref   VerifPDRef
+	Parts []int
+}
+
+type VerifPDExport struct {
+	Alias  string
+	Source int
+	Ref    VerifPDRef
+}
+
+type VerifPDSymbol struct {
+	Inner      int
+	HasLink    bool
+	Link       VerifPDRef
+	IsImport   bool
+	IsEmpty    bool
+	IsIdentity bool
+	Mutated    bool
+}
+
+type VerifPDFile struct {
+	SourceIndex            int
+	Path                   string
+	IsEntryPoint           bool
+	Wrap                   int
+	ExportsKind            int
+	ForceIncludeExports    bool
+	NeedsExportsVariable   bool
+	NeedsExportFromRuntime bool
+	WrapperPart            int // -1 = none
+	EntryPointPart         int // -1 = none
+	ExportsRef             VerifPDRef
+	ModuleRef              VerifPDRef
+	WrapperRef             VerifPDRef
+	Exports                []VerifPDExport // ResolvedExports[alias] for alias in SortedAndFilteredExportAliases
+	NamedImports           []VerifPDNamedImport
+	Binds                  []VerifPDBind
+	TLS                    []VerifPDTLS // TopLevelSymbolToParts for every key of the overlay and of the parser's map
+	Records                []VerifPDRecord
+	Stars                  []int // ExportStarImportRecords
+	Symbols                []VerifPDSymbol
+	Parts                  []VerifPDPart
+}
+
+type VerifPDDump struct {
+	KeepESM       bool // OutputFormat.KeepESMImportExportSyntax()
+	FormatCJS     bool
+	RuntimeReq    bool // config.ShouldCallRuntimeRequire(Mode, OutputFormat)
+	NoDynImport   bool // UnsupportedJSFeatures.Has(compat.DynamicImport)
+	ConstOn       bool // graph.ConstValues != nil
+	Consts        []VerifPDRef
+	RuntimeSource int
+	RtToESM       VerifPDRef
+	RtToCommonJS  VerifPDRef
+	RtRequire     VerifPDRef
+	RtReExport    VerifPDRef
+	RtExport      VerifPDRef
+	RtCommonJS    VerifPDRef
+	RtESM         VerifPDRef
+	Files         []VerifPDFile
+}
+
+var verifPartDepsObserver func(VerifPDDump)
+
+// VerifSetPartDepsObserver installs (or with nil removes) the observer.
+func VerifSetPartDepsObserver(f func(VerifPDDump)) {
+	verifShakeMutex.Lock()
+	verifPartDepsObserver = f
+	verifShakeMutex.Unlock()
+}
+
+func verifPDRef(r ast.Ref) VerifPDRef {
+	return VerifPDRef{Source: int(r.SourceIndex), Inner: int(r.InnerIndex)}
+}
+
+func verifPDLess(a, b VerifPDRef) bool {
+	if a.Source != b.Source {
+		return a.Source < b.Source
+	}
+	return a.Inner < b.Inner
+}
+
+func verifObservePartDeps(c *linkerContext) {
+	verifShakeMutex.Lock()
+	obs := verifPartDepsObserver
+	verifShakeMutex.Unlock()
+	if obs == nil {
+		return
+	}
+	runtimeRepr := c.graph.Files[runtime.SourceIndex].InputFile.Repr.(*graph.JSRepr)
+	d := VerifPDDump{
+		KeepESM:       c.options.OutputFormat.KeepESMImportExportSyntax(),
+		FormatCJS:     c.options.OutputFormat == config.FormatCommonJS,
+		RuntimeReq:    config.ShouldCallRuntimeRequire(c.options.Mode, c.options.OutputFormat),
+		NoDynImport:   c.options.UnsupportedJSFeatures.Has(compat.DynamicImport),
+		ConstOn:       c.graph.ConstValues != nil,
+		RuntimeSource: int(runtime.SourceIndex),
+		RtToESM:       verifPDRef(runtimeRepr.AST.NamedExports["__toESM"].Ref),
+		RtToCommonJS:  verifPDRef(runtimeRepr.AST.NamedExports["__toCommonJS"].Ref),
+		RtRequire:     verifPDRef(runtimeRepr.AST.NamedExports["__require"].Ref),
+		RtReExport:    verifPDRef(runtimeRepr.AST.NamedExports["__reExport"].Ref),
+		RtExport:      verifPDRef(runtimeRepr.AST.ModuleScope.Members["__export"].Ref),
+		RtCommonJS:    verifPDRef(c.cjsRuntimeRef),
+		RtESM:         verifPDRef(c.esmRuntimeRef),
+	}
+	for ref := range c.graph.ConstValues {
+		d.Consts = append(d.Consts, verifPDRef(ref))
+	}
+	sort.Slice(d.Consts, func(i, j int) bool { return verifPDLess(d.Consts[i], d.Consts[j]) })
+	for _, sourceIndex := range c.graph.ReachableFiles {
+		file := &c.graph.Files[sourceIndex]
+		repr, ok := file.InputFile.Repr.(*graph.JSRepr)
+		if !ok {
+			continue
+		}
+		f := VerifPDFile{
+			SourceIndex:            int(sourceIndex),
+			Path:                   file.InputFile.Source.PrettyPaths.Rel,
+			IsEntryPoint:           file.IsEntryPoint(),
+			Wrap:                   int(repr.Meta.Wrap),
+			ExportsKind:            int(repr.AST.ExportsKind),
+			ForceIncludeExports:    repr.Meta.ForceIncludeExportsForEntryPoint,
+			NeedsExportsVariable:   repr.Meta.NeedsExportsVariable,
+			NeedsExportFromRuntime: repr.Meta.NeedsExportSymbolFromRuntime,
+			WrapperPart:            -1,
+			EntryPointPart:         -1,
+			ExportsRef:             verifPDRef(repr.AST.ExportsRef),
+			ModuleRef:              verifPDRef(repr.AST.ModuleRef),
+			WrapperRef:             verifPDRef(repr.AST.WrapperRef),
+		}
+		if repr.Meta.WrapperPartIndex.IsValid() {
+			f.WrapperPart = int(repr.Meta.WrapperPartIndex.GetIndex())
+		}
+		if repr.Meta.EntryPointPartIndex.IsValid() {
+			f.EntryPointPart = int(repr.Meta.EntryPointPartIndex.GetIndex())
+		}
+		for _, alias := range repr.Meta.SortedAndFilteredExportAliases {
+			export := repr.Meta.ResolvedExports[alias]
+			f.Exports = append(f.Exports, VerifPDExport{Alias: alias, Source: int(export.SourceIndex), Ref: verifPDRef(export.Ref)})
+		}
+		for ref, ni := range repr.AST.NamedImports {
+			n := VerifPDNamedImport{Ref: verifPDRef(ref)}
+			for _, p := range ni.LocalPartsWithUses {
+				n.LocalParts = append(n.LocalParts, int(p))
+			}
+			f.NamedImports = append(f.NamedImports, n)
+		}
+		sort.Slice(f.NamedImports, func(i, j int) bool { return verifPDLess(f.NamedImports[i].Ref, f.NamedImports[j].Ref) })
+		for ref, b := range repr.Meta.ImportsToBind {
+			vb := VerifPDBind{Key: verifPDRef(ref), Source: int(b.SourceIndex), Ref: verifPDRef(b.Ref)}
+			for _, dep := range b.ReExports {
+				vb.ReExports = append(vb.ReExports, [2]int{int(dep.SourceIndex), int(dep.PartIndex)})
+			}
+			f.Binds = append(f.Binds, vb)
+		}
+		sort.Slice(f.Binds, func(i, j int) bool { return verifPDLess(f.Binds[i].Key, f.Binds[j].Key) })
+		tlsKeys := map[ast.Ref]bool{}
+		for ref := range repr.Meta.TopLevelSymbolToPartsOverlay {
+			tlsKeys[ref] = true
+		}
+		for ref := range repr.AST.TopLevelSymbolToPartsFromParser {
+			tlsKeys[ref] = true
+		}
+		for ref := range tlsKeys {
+			t := VerifPDTLS{Ref: verifPDRef(ref)}
+			for _, p := range repr.TopLevelSymbolToParts(ref) {
+				t.Parts = append(t.Parts, int(p))
+			}
+			f.TLS = append(f.TLS, t)
+		}
+		sort.Slice(f.TLS, func(i, j int) bool { return verifPDLess(f.TLS[i].Ref, f.TLS[j].Ref) })
+		for i := range repr.AST.ImportRecords {
+			record := &repr.AST.ImportRecords[i]
+			r := VerifPDRecord{Kind: int(record.Kind), Target: -1,
+				Star:     record.Flags.Has(ast.ContainsImportStar),
+				Default:  record.Flags.Has(ast.ContainsDefaultAlias),
+				ESModule: record.Flags.Has(ast.ContainsESModuleAlias)}
+			if record.SourceIndex.IsValid() {
+				r.Target = int(record.SourceIndex.GetIndex())
+				r.ExtDyn = c.isExternalDynamicImport(record, sourceIndex)
+			}
+			f.Records = append(f.Records, r)
+		}
+		for _, idx := range repr.AST.ExportStarImportRecords {
+			f.Stars = append(f.Stars, int(idx))
+		}
+		syms := c.graph.Symbols.SymbolsForSource[sourceIndex]
+		for inner := range syms {
+			s := &syms[inner]
+			vs := VerifPDSymbol{Inner: inner, IsImport: s.Kind == ast.SymbolImport,
+				IsEmpty: s.Flags.Has(ast.IsEmptyFunction), IsIdentity: s.Flags.Has(ast.IsIdentityFunction), Mutated: s.Flags.Has(ast.CouldPotentiallyBeMutated)}
+			if s.Link != ast.InvalidRef {
+				vs.HasLink = true
+				vs.Link = verifPDRef(s.Link)
+			}
+			if vs.HasLink || vs.IsImport || vs.IsEmpty || vs.IsIdentity || vs.Mutated {
+				f.Symbols = append(f.Symbols, vs)
+			}
+		}
+		for _, part := range repr.AST.Parts {
+			p := VerifPDPart{CanBeRemovedIfUnused: part.CanBeRemovedIfUnused, ForceTreeShaking: part.ForceTreeShaking, IsLive: part.IsLive}
+			for ref := range part.SymbolUses {
+				p.Uses = append(p.Uses, verifPDRef(ref))
+			}
+			sort.Slice(p.Uses, func(i, j int) bool { return verifPDLess(p.Uses[i], p.Uses[j]) })
+			for ref, cu := range part.SymbolCallUses {
+				p.CallUses = append(p.CallUses, VerifPDCallUse{Ref: verifPDRef(ref), Calls: int(cu.CallCountEstimate), Single: int(cu.SingleArgNonSpreadCallCountEstimate)})
+			}
+			sort.Slice(p.CallUses, func(i, j int) bool { return verifPDLess(p.CallUses[i].Ref, p.CallUses[j].Ref) })
+			for _, ds := range part.DeclaredSymbols {
+				p.Declared = append(p.Declared, VerifPDDecl{Ref: verifPDRef(ds.Ref), IsTopLevel: ds.IsTopLevel})
+			}
+			for _, idx := range part.ImportRecordIndices {
+				p.Records = append(p.Records, int(idx))
+			}
+			for _, dep := range part.Dependencies {
+				p.Deps = append(p.Deps, [2]int{int(dep.SourceIndex), int(dep.PartIndex)})
+			}
+			f.Parts = append(f.Parts, p)
+		}
+		d.Files = append(d.Files, f)
+	}
+	obs(d)
+}
